@@ -192,12 +192,16 @@ Proof.
     destruct (run_proto s1 t) as [| |l1] eqn:E2; try discriminate.
     inversion E; subst l. cbn [check_run_lit fst snd].
     destruct (pstep_Inv _ o H s p s1 r I E1) as [I1 _].
-    assert (Inow : Inv ((b || is_compact p) = true) o (memP (abs_step H p)) s1).
+    assert (Inow : Inv ((b || touches_head (Offset s) p) = true) o (memP (abs_step H p)) s1).
     { destruct b; cbn [orb]; [exact I1|].
-      destruct p; cbn [is_compact]; try (eapply Inv_weaken; [|exact I1]; discriminate).
-      cbn [pstep step] in E1. inversion E1; subst s1 r.
-      destruct (Inv_Compact _ o _ s I) as (IC & _). cbn [abs_step].
-      eapply Inv_weaken; [|exact IC]. intros _. exact Logic.I. }
+      destruct (touches_head (Offset s) p) eqn:Th; [|eapply Inv_weaken; [|exact I1]; discriminate].
+      assert (Hh : head_ok (Words s1)).
+      { destruct p; cbn [touches_head] in Th; try discriminate.
+        - apply andb_true_iff in Th. destruct Th as [A B]. apply Z.leb_le in A. apply Z.ltb_lt in B.
+          cbn [pstep step] in E1. destruct (Set_ s idx) as [s2|] eqn:ES; [|discriminate].
+          inversion E1; subst s1 r. apply (Set_head s idx s2); [lia|exact ES].
+        - cbn [pstep step] in E1. inversion E1; subst s1 r. apply Compact_head. }
+      eapply Inv_weaken; [|exact (Inv_strengthen _ o _ s1 Hh I1)]. intros _. exact Logic.I. }
     rewrite (check_step_gen_ok _ _ o H s p s1 r I Inow E1). cbn [andb].
     apply IH; [|exact E2].
     destruct (head_okb (Words s1)) eqn:Hh.
